@@ -1,7 +1,10 @@
 import MM.Props.Exhaustive
 import MM.Props.Greedy
+import MM.Props.SearchTie
 #print axioms MM.Search.evaluatedRaw_eq_filter
 #print axioms MM.Search.C13_greedy_in_evaluated
 #print axioms MM.Search.C13_empty
 #print axioms MM.Search.C13_not_better
 #print axioms MM.Search.C14_greedy
+#print axioms MM.Search.tie_volume
+#print axioms MM.Search.tie_geo_ratio
